@@ -687,6 +687,119 @@ fn concurrent(ctx: &mut Ctx) {
     }
 }
 
+/// REP with two clients of which one leaves (reset, close, or a write error on its connection)
+/// after its request has been received and before the reply is written. That send may fail or be
+/// accepted into a dead connection - it must return - and the lock-step goes on with the other
+/// client: its request is received next and its reply reaches its connection.
+fn rep_requester_gone(ctx: &mut Ctx) {
+    world::swarm(ctx, SwarmOpts::default());
+    let how = ctx.plan(3);
+    let settle = ctx.plan_bool();
+    let viol: Viol = Rc::new(RefCell::new(Vec::new()));
+    let done = Rc::new(RefCell::new(false));
+    let (vl, dn) = (viol.clone(), done.clone());
+    rt::task::spawn_local("app", async move {
+        let mut rep = RepSocket::new();
+        let ep = rep.bind("tcp://127.0.0.1:0").await.expect("bind").to_string();
+        let mut a = RawPeer::connect(&ep).expect("connect");
+        let _ = a.hello("REQ", None).await;
+        let mut b = RawPeer::connect(&ep).expect("connect");
+        let _ = b.hello("REQ", None).await;
+        rt::task::idle().await;
+        let mut q = vec![vec![]];
+        q.extend(tagged(1, 0, &[3]));
+        let _ = a.send_msg(&q).await;
+        match rt::future::or_idle(rep.recv()).await {
+            Some(Ok(m)) if tag_of(&from_zmq(&m)) == Some((1, 0)) => {}
+            other => {
+                vl.borrow_mut().push(("request_not_delivered", format!("first request: {:?}", other.map(|r| r.map(|m| show_msg(&from_zmq(&m))).map_err(|e| e.to_string())))));
+                return world::park().await;
+            }
+        }
+        // the requester goes away with its reply owed
+        let mut keep_a = None;
+        match how {
+            0 => {
+                a.reset();
+                drop(a);
+            }
+            1 => a.close(),
+            _ => {
+                a.conn.inject_write_error(1 - a.side, std::io::ErrorKind::ConnectionAborted);
+                rt::count("fault_write_error");
+                keep_a = Some(a);
+            }
+        }
+        if settle {
+            rt::task::idle().await;
+        }
+        let mut q2 = vec![vec![]];
+        q2.extend(tagged(2, 0, &[3]));
+        let _ = b.send_msg(&q2).await;
+        // the owed reply: whatever its result, the call returns
+        let r = rt::future::or_idle(rep.send(to_zmq(&tagged(7, 0, &[4])))).await;
+        if r.is_none() {
+            vl.borrow_mut().push(("reply_send_never_returns", format!("REP: the requester's connection was gone ({}) when the reply was sent; the send never returned", ["reset", "closed", "failing every write"][how as usize])));
+            *dn.borrow_mut() = true;
+            return world::park().await;
+        }
+        rt::count("probe_reply_sent_to_a_requester_that_is_gone");
+        // the other client is served
+        let mut got = false;
+        for _ in 0..4 {
+            match rt::future::or_idle(rep.recv()).await {
+                Some(Ok(m)) if tag_of(&from_zmq(&m)) == Some((2, 0)) => {
+                    got = true;
+                    break;
+                }
+                Some(_) => {}
+                None => break,
+            }
+        }
+        if !got {
+            vl.borrow_mut().push(("request_not_delivered", "REP: after a reply to a requester that had gone, the other client's request was never delivered".into()));
+            *dn.borrow_mut() = true;
+            return world::park().await;
+        }
+        let reply = tagged(7, 1, &[4]);
+        match rt::future::or_idle(rep.send(to_zmq(&reply))).await {
+            Some(Ok(())) => {}
+            other => {
+                vl.borrow_mut().push(("legal_send_refused", format!("REP: the reply to the other client was not accepted: {:?}", other.map(|r| r.map_err(|e| e.to_string())))));
+                *dn.borrow_mut() = true;
+                return world::park().await;
+            }
+        }
+        rt::task::idle().await;
+        let mut expect = vec![vec![]];
+        expect.extend(reply.iter().cloned());
+        if b.inbound().messages() != vec![expect] {
+            vl.borrow_mut().push(("reply_not_on_requesters_connection", format!("REP: the other client's connection carries {:?}", b.inbound().messages().iter().map(|m| show_msg(m)).collect::<Vec<_>>())));
+        }
+        *dn.borrow_mut() = true;
+        world::park().await;
+        drop(rep);
+        drop(b);
+        drop(keep_a);
+    });
+    let end = ctx.sim.run(300_000);
+    if end == rt::RunEnd::Budget {
+        ctx.violation("no_quiescence", "REP with a requester that goes away: no quiescence".into());
+    }
+    ctx.check_panics();
+    for (c, d) in viol.borrow().clone() {
+        ctx.violation(c, d);
+    }
+    if *done.borrow() {
+        ctx.nontrivial();
+    } else if end == rt::RunEnd::Quiescent && ctx.sim.rt.panics.borrow().is_empty() && viol.borrow().is_empty() {
+        ctx.violation("stuck", "REP with a requester that goes away: the scenario never completed".into());
+    }
+    if ctx.want_sample {
+        ctx.out.sample = Some(format!("REP: client A asks and goes away ({how}), the reply is sent, client B is served"));
+    }
+}
+
 pub fn def() -> PropDef {
     PropDef {
         id: "C08",
@@ -697,6 +810,7 @@ pub fn def() -> PropDef {
             Stratum { name: "req_sequences", quick: 126 * 60, thorough: (126 * 2000) * 4, exhaustive: (true, true), run: req_sequences, what: "all 126 call sequences <= 6 on REQ (first 126 cases undisturbed), then under random transport" },
             Stratum { name: "rep_sequences", quick: 126 * 60, thorough: (126 * 2000) * 4, exhaustive: (true, true), run: rep_sequences, what: "all 126 call sequences <= 6 on REP with two pipelining partners" },
             Stratum { name: "req_failed_send", quick: 30_000, thorough: 1_500_000, exhaustive: (false, false), run: req_failed_send, what: "REQ with 2..3 partners, one dies: a failed send leaves the socket ready to send to the others" },
+            Stratum { name: "rep_requester_gone", quick: 12_000, thorough: 600_000, exhaustive: (false, false), run: rep_requester_gone, what: "REP: a requester goes away (reset, close, write error) with its reply owed; the reply send returns, and the other client is served in lock-step" },
             Stratum { name: "rep_abandoned_send", quick: 30_000, thorough: 1_500_000, exhaustive: (false, false), run: rep_abandoned_send, what: "REP: a reply send is abandoned under back-pressure, then retried: at most one reply per request reaches the requester, in order" },
             Stratum { name: "rejoin_reply", quick: 9_600, thorough: 800_000, exhaustive: (false, false), run: super::c16::rejoin_reply, what: "REP: a client that comes back under its announced identity (16 departure/rejoin histories, incl. the old connection still open) gets the replies to the requests it sends on its new connection" },
             Stratum { name: "concurrent", quick: 100_000, thorough: (1_500_000) * 4, exhaustive: (false, false), run: concurrent, what: "1..4 concurrent clients against one REP" },
